@@ -153,10 +153,7 @@ Proof. eexists. split; [vm_compute; reflexivity|vm_compute; discriminate]. Qed.
 (** the base file is a reachable state of the repaired model: [Inv] holds there (computed, as a sanity check of
     the hypotheses: every id the history consumed is fresh) *)
 Example base_fresh_along : fresh_along wid 256 wsan wunit empty_db base_ops.
-Proof.
-  unfold base_ops. simpl. repeat split; try (vm_compute; lia);
-    try (intros x Hx; vm_compute in Hx; repeat (destruct Hx as [Hx|Hx]; [subst x; vm_compute; discriminate|]); contradiction).
-Qed.
+Proof. apply fresh_alongb_ok. vm_compute. reflexivity. Qed.
 
 Example base_inv : Inv wid 256 (base repaired).
 Proof. apply (inv_run wid wid_inj 256 wid_uuid); [apply inv_empty|apply base_fresh_along]. Qed.
